@@ -247,9 +247,12 @@ func fnLcs(ctx *cmdContext, args map[string]any) (output respValue, err error) {
 		return
 	}
 
-	if vals[0] == nil || vals[1] == nil {
-		output.data = respBulkString("")
-		return
+	// a missing key is an empty string; the requested reply form (LEN, IDX) still applies
+	empty := ""
+	for i := range vals {
+		if vals[i] == nil {
+			vals[i] = &empty
+		}
 	}
 
 	ls := newLongestSeq(*vals[0], *vals[1])
